@@ -100,6 +100,18 @@ def r2_registration(ctx):
     if not regs:
         return
     rb, re_ = regs[0]
+    # every member of the batch is looked at: the loop is left towards Ok only when the batch is exhausted (the header's own exit).  A `break` on some transaction
+    # leaves the staking transactions after it unregistered — what is registered then depends on the order of the batch
+    oks_ = [bb for bb, e_ in q.result_blocks(body)["Ok"]]
+    early = []
+    for x in sorted(blocks):
+        if x == h or x in body.succs(h):
+            continue            # the iterator's own end: `next()` in the header, the switch on its result right behind it
+        for s_ in body.succs(x):
+            if s_ not in blocks and any(o in body.reachable(s_) for o in oks_):
+                early.append(x)
+    r.check(not early, "every-tx/no-early-exit", "the scan ends only when the batch is exhausted (or with an error)", "the scan over the batch can be left early towards Ok (from bb%s): staking transactions after that point are not registered" % early,
+            body.where(early[0]) if early else None)
     DOC = "try(stdcode::deserialize(%s.data))" % EL
     COIN = "try(core::slice::<impl [T]>::get(%s.outputs, 0))" % EL
     r.check(sig(re_[2][1]) == "Transaction::hash_nosigs(%s)" % EL, "register/key", "key = tx.hash_nosigs()", "key = %s" % sig(re_[2][1]), body.where(rb))
